@@ -65,13 +65,23 @@ def r1_run_chain(chk, fx):
     fc = find_call(b, "::fetch_config", want=2)
     steps.append(("fetch_config#1", fc[0]))
     steps.append(("fetch_config#2", fc[1]))
-    ht = find_call(b, "task::handle_task", want=2)
+    from .agent_common import join_helpers
+    jh = tuple(join_helpers(fx))
+    ht = [c for c in b.calls() if not c.macro and c.is_fn(*jh)]
+    if len(ht) < 2:
+        raise F.AnchorLost("%s: expected >=2 joins of spawned tasks (%s), found %d" % (b.name, jh, len(ht)))
     steps.append(("try_join!(handle_task#1,..)", ht[0]))
     steps.append(("try_join!(..,handle_task#2)", ht[1]))
     steps.append(("load_config", find_call(b, "::load_config")[0]))
     steps.append(("commit_config", find_call(b, "::commit_config")[0]))
-    steps.append(("close_db", find_call(b, "::close_db")[0]))
-    steps.append(("close", find_call(b, "netconf::Closed>::close")[0]))
+    # the closing steps may live in a helper of run(): their place in the order and their verdict are then decided by C04/R8 alone
+    # (explored paths, helpers inlined), which fails when a step is missing or out of order
+    for nm, suffix in (("close_db", "::close_db"), ("close", "netconf::Closed>::close")):
+        cs = [c for c in b.calls() if not c.macro and c.is_fn(suffix)]
+        if cs:
+            steps.append((nm, cs[0]))
+        else:
+            chk.instance("C04/R1", "%s is not requested by run() itself (a helper does): order and verdict decided by C04/R8" % nm, b.name, None, holds=True)
     chk.call_sites += len(steps)
     n_edges = 0
     # every later step must be ok-dominated by every earlier step
@@ -101,7 +111,7 @@ def r1_run_chain(chk, fx):
             n_edges += 1
             chk.instance("C04/R1", "%s ≺ok return Ok(())" % nx, b.name, loc_of(s.get("sp")), holds=ok,
                          key="C04/R1 %s Ok-return-not-okdom-by %s" % (short_fn(b.name), nx))
-    chk.floor("C04/R1 ok-dominance edges in run", n_edges, 50)
+    chk.floor("C04/R1 ok-dominance edges in run", n_edges, 35)
     # WHO: commit_config is requested from exactly one place
     sites = []
     for name, body in fx.mir.items():
@@ -478,7 +488,14 @@ def r4_typestate(chk, fx):
 def r5_handle_task(chk, fx):
     """handle_task maps a failed or panicked sub-task to Err: decided on the abstract result of awaiting the JoinHandle."""
     from vlib import absint as A
-    hn = AGENT + "::task::handle_task::{closure#0}"
+    from .agent_common import join_helpers
+    hs = join_helpers(fx)
+    for h in hs:
+        _r5_one(chk, fx, h + "::{closure#0}")
+
+
+def _r5_one(chk, fx, hn):
+    from vlib import absint as A
     t = fx.thir_body(hn)
     chk.analysed(hn)
     paths = A.Interp(fx, crates=(AGENT,)).explore(hn)
